@@ -71,6 +71,50 @@ def corpus_cases(ctx):
     return cases
 
 
+TRICKY_VALID = [
+    'def e{return"a"weighted 1}', "def e{return'a'weighted 1,'b'weighted 2}", 'def e { return "a" weighted 007 }', 'def e { return "a" weighted 1.50 }',
+    'def e { return - 5 weighted 1, -5 weighted 1, -0 weighted 1, -0.0 weighted 1, 0 weighted 1 }', 'def e { return "it\'s" weighted 1, \'say "hi"\' weighted 1 }',
+    'def e { splitters: u if x == 1 { return "a" weighted 1 } else    if x == 2 { return "b" weighted 1 } else\tif x == 3 { return "c" weighted 1 } elseif x == 4 { return "d" weighted 1 } else\nif x == 5 { return "e" weighted 1 } }',
+    'def e { splitters: u if x not in (1, 2) { return "a" weighted 1 } else if x not\tin (3) { return "b" weighted 1 } else if x not\n  in (4) { return "c" weighted 1 } }',
+    'def e { splitters: u if ((x == 1)) { return "a" weighted 1 } }', 'def e { splitters: u if (((((((((( x == 1 )))))))))) { return "a" weighted 1 } }',
+    'def e { splitters: u if (1, 2) == x { return "a" weighted 1 } else if (x) == (1) { return "b" weighted 1 } else if ((1, 2), (3)) == x { return "c" weighted 1 } }',
+    'def e { splitters: u if not not not x == 1 { return "a" weighted 1 } }', 'def e { splitters: u if not x == 1 and not y == 2 or not z == 3 { return "a" weighted 1 } }',
+    'def e { splitters: u if x == 1 or y == 2 and z == 3 { return "a" weighted 1 } else { return "b" weighted 1 } }',
+    'def e { splitters: u if x == 1 and y == 2 or z == 3 { return "a" weighted 1 } else { return "b" weighted 1 } }',
+    'def e { splitters: u if not (x == 1 or y == 2) and z == 3 { return "a" weighted 1 } else { return "b" weighted 1 } }',
+    'def e { splitters: u if x in "abc" { return "a" weighted 1 } else { return "b" weighted 1 } }', 'def e { splitters: u if "b" in x { return "a" weighted 1 } else { return "b" weighted 1 } }',
+    'def e { splitters: u if x == y { return "a" weighted 1 } else if x < y { return "b" weighted 1 } else { return "c" weighted 1 } }',
+    'def e { splitters: u, u, u return "a" weighted 1, "b" weighted 1 }', 'def e { salt: "" splitters: u return "a" weighted 1, "b" weighted 1 }',
+    "def e { salt: '' splitters: u return 'a' weighted 1, 'b' weighted 1 }", 'def e { salt:"s"splitters:u return"a"weighted 1 }',
+    'def e {\r\n  splitters: u\r\n  return "a" weighted 1\r\n}\r\n', 'def e {\x0c splitters:\x0bu return "a" weighted 1 }', 'def\u00a0e\u2003{\u3000return "a" weighted 1 }',
+    'def e { return "a" weighted \u0663 }', 'def e { return \u0661\u0662 weighted 1.\u0665 }', 'def e { return "a" weighted 1 } // no newline at end',
+    'def e { return "a" weighted 1 } /* c */', '/* c */ def e { return "a" weighted 1 }', 'def e { return "a" /* x */ weighted /* y */ 1 /* z */ }',
+    'def e { return "//" weighted 1, "/*" weighted 1, "*/" weighted 1 }', 'def e { // c\n return "a" weighted 1 /* /* nested open */ }',
+    'def _ { return "a" weighted 1 }', 'def __x__ { return "a" weighted 1 }', 'def E1 { return "a" weighted 1 }', 'def iffy { splitters: order_id, index, not_active, android, elsewhere, inner, salty return "a" weighted 1, "b" weighted 1 }',
+    'def e { splitters: u if order_id == 1 and not_active == 2 or index in (1) { return "a" weighted 1 } else { return "b" weighted 1 } }',
+    'def e { return 0 weighted 0, 1 weighted 0.0, 2 weighted 1 }', 'def e { return "a" weighted 0.000000001, "b" weighted 1000000000 }',
+    'def e { return 123456789012345678901234567890 weighted 1, -123456789012345678901234567890 weighted 1, 1.7976931348623157 weighted 1 }',
+    'def e { splitters: u if x == 123456789012345678901234567890 { return "a" weighted 1 } else { return "b" weighted 1 } }',
+    'def e { splitters: u if x > -1.5 and x <= 2.25 { return "a" weighted 1 } else { return "b" weighted 1 } }',
+]
+
+
+def tricky_cases(ctx):
+    import recogniser
+    rng = ctx.rng
+    cases = []
+    for t in TRICKY_VALID:
+        t = t.encode("ascii", "backslashreplace").decode("unicode_escape") if "\\u" in t else t
+        if not recogniser.accepts(t):
+            ctx.notes.append("tricky corpus entry not accepted by the recogniser (skipped): " + t[:60])
+            continue
+        envs = [{"u": rng.choice(["u1", 7]), "x": rng.choice([1, 2, 3, 4, 5, "abc", (1, 2), ((1, 2), (3,)), -1.5, 2.25, 123456789012345678901234567890]),
+                 "y": rng.choice([1, 2, "b"]), "z": rng.choice([3, 4]), "order_id": 1, "index": 1, "not_active": 2, "android": 0, "elsewhere": 0,
+                 "inner": 0, "salty": 0} for _ in range(4)]
+        cases.append({"prog": None, "text": t, "envs": envs, "must_compile": True})
+    return cases
+
+
 def k1_cases(ctx):
     """finding family K1: identifiers that are Python reserved words / names the generated code uses"""
     cases = []
@@ -136,7 +180,7 @@ def run(ctx):
                          "single-letter names, fields shared between splitters and conditions, identifiers and tuples "
                          "inside tuples; type-compatible inputs derived from the literals; distinct = distinct source text; "
                          "non-trivial = compiled")
-    corpus = corpus_cases(ctx)
+    corpus = corpus_cases(ctx) + tricky_cases(ctx)
     ctx.count("corpus-programs", len(corpus))
     progcases.run_cases(ctx, corpus + make_cases(ctx, n, big=True))
     run_k1(ctx)
